@@ -127,6 +127,26 @@ theorem minter_check (C : Crypto) (cx : ICtx) (tokenId minter : Bytes) (t t1 : T
         · simp [hm] at h
       · simp [hr] at h
 
+/-- **At the time of use the named local minter must CURRENTLY hold the minter role**, and a custom
+    destination minter needs the stored approval of exactly (that minter, the caller's token id,
+    the destination chain, the destination minter), which the use clears. -/
+theorem custom_minter_deploy_needs_current_minter_and_approval (C : Crypto) (cx : ICtx)
+    (salt minter chain dm : Bytes) (t t' : Tx) (r : Bytes) (hz : Gateway.isZeroAddr minter = false)
+    (h : deployRemoteWithMinter C cx salt minter chain (some dm) t = some (r, t')) :
+    ∃ t1 st', checkTokenMinter C cx (tokenIdRaw C (interchainTokenDeploySalt C t.w.its cx.caller salt)) minter t
+        = some ((), t1) ∧
+      useDeployApproval C t1.w.its minter (tokenIdRaw C (interchainTokenDeploySalt C t.w.its cx.caller salt)) chain dm
+        = some st' := by
+  simp only [deployRemoteWithMinter, run_bind, run_getI, hz, Bool.not_false, if_true] at h
+  cases hc : checkTokenMinter C cx (tokenIdRaw C (interchainTokenDeploySalt C t.w.its cx.caller salt)) minter t with
+  | none => simp [hc] at h
+  | some x =>
+    obtain ⟨u, t1⟩ := x
+    simp only [hc] at h
+    cases hu : useDeployApproval C t1.w.its minter (tokenIdRaw C (interchainTokenDeploySalt C t.w.its cx.caller salt)) chain dm with
+    | none => simp [hu] at h
+    | some st' => exact ⟨t1, st', rfl, hu⟩
+
 /-- **Without a local minter no destination minter can be supplied.** -/
 theorem no_local_minter_no_destination_minter (C : Crypto) (cx : ICtx) (salt minter chain dm : Bytes) (t : Tx)
     (hz : Gateway.isZeroAddr minter = true) : deployRemoteWithMinter C cx salt minter chain (some dm) t = none := by
